@@ -31,7 +31,7 @@ from ..engine.cfg import own_parts
 from ..engine.report import AnalysisError, Run
 from ..engine.resolver import Program, body_walk
 from ..engine.util import canon, canon_total, find_calls, method_call, u
-from ._c06_util import VALID_HINT, Flow, HelperCalls, indent_of, inline_all, is_validity_call, validity_name, lifted, names_eq, pruned, unawait, seg, spliced, stmt_patch, truth_atom
+from ._c06_util import VALID_HINT, Flow, HelperCalls, indent_of, inline_all, is_validity_call, validity_name, lifted, names_eq, pruned, unawait, seg, spliced, src_patch, stmt_patch, truth_atom
 
 STEPS = "timeseries.formula_engine._formula_steps"
 MF = f"{STEPS}:MetricFetcher"
@@ -233,6 +233,12 @@ def check_err(run: Run, prog: Program) -> None:
                                   "failing stream aborts the formula instead of switching sources",
                                   node=call, file=m.file)
                 continue
+            names = [u(e) for e in (handler.type.elts if isinstance(handler.type, ast.Tuple) else [handler.type])]
+            only_rx = all(n_.split("[")[0].split(".")[-1] == "ReceiverError" for n_ in names)
+            run.check(only_rx, "C19.ERR", m.qual, f"except {u(handler.type)} around {who}.receive(): stream errors only",
+                      f"`except {u(handler.type)}` treats something other than a ReceiverError (a timeout, a cancellation, any "
+                      "exception) like a failed stream: the source is switched although the stream is healthy", node=handler,
+                      file=m.file, instance=f"{m.qual}: handler around {who}.receive() catches stream errors only")
             catchable = isinstance(handler.type, (ast.Name, ast.Attribute)) or (
                 isinstance(handler.type, ast.Tuple) and all(isinstance(e, (ast.Name, ast.Attribute)) for e in handler.type.elts))
             run.check(catchable, "C19.ERR", m.qual, f"except {u(handler.type)} (around {who}.receive())",
@@ -550,6 +556,12 @@ def check_sync(run: Run, prog: Program, rule: str = "C19.SYNC") -> None:
         s = sflow.cfg.nodes[r].ast
         ok = isinstance(s, (ast.Assign, ast.AnnAssign)) and u(s.targets[0] if isinstance(s, ast.Assign) else s.target) == LATEST \
             and sflow.cfg.is_await(r) and isinstance(s.value, ast.Await)
+        direct = isinstance(sflow._parent.get(id(_c)), ast.Await)
+        run.check(direct, rule, fn.qual, f"await {u(_c)} (awaited as it is)",
+                  f"the read of the fallback stream is not awaited directly (`{u(s)[:80]}`): wrapped in a timeout / shield / task it "
+                  "can be abandoned while the fallback sample of this timestamp is still on its way -- the term then reports the "
+                  "missing primary although the fallback is valid, and the late sample desynchronises the catch-up",
+                  node=s, file=fn.file, instance=f"{fn.qual}: direct await of {u(_c)} at line {getattr(s, 'lineno', 0)}")
         run.check(ok, rule, fn.qual, s,
                   "a sample read from the fallback stream is not stored in _latest_fallback_sample at once: "
                   "if this call returns early the sample is lost and the fallback can never catch up with "
@@ -611,6 +623,37 @@ def check_sync(run: Run, prog: Program, rule: str = "C19.SYNC") -> None:
                     edge_ok=pruned(cfg, none_atom(False), normal_only=False)) is not None
     run.check(len(mentions) == 1 and wit is None and lazy, rule, fn.qual, f"first use: {LATEST} is None -> fetch",
               "the first fallback sample is not fetched lazily", node=fn.node, file=fn.file, path=cfg.describe_path(wit))
+
+
+def check_keep(run: Run, prog: Program) -> None:
+    """C19.KEEP ("... and returns to the primary when it recovers"): which stream is the primary and which fetcher
+    the fallback is decided when the MetricFetcher is built; no later code path -- in particular no error handler --
+    re-binds `_stream` or `_fallback` (that would make a transient primary error, or any other event, permanent)."""
+    cls = prog.cls(MF)
+    init = cls.methods.get("__init__")
+    if init is None:
+        raise AnalysisError(f"{MF}.__init__ not found")
+    run.analysed(init.qual)
+    for attr in ("_stream", "_fallback"):
+        n_init = sum(1 for x in ast.walk(init.node) if isinstance(x, ast.Attribute) and isinstance(x.ctx, ast.Store)
+                     and x.attr == attr and u(x.value) == "self")
+        if n_init < 1:
+            raise AnalysisError(f"{MF}.__init__ does not bind self.{attr}")
+        writers = []
+        for m in cls.methods.values():
+            if m is init:
+                continue
+            for x in ast.walk(m.node):
+                if isinstance(x, ast.Attribute) and isinstance(x.ctx, (ast.Store, ast.Del)) and x.attr == attr and u(x.value) == "self":
+                    writers.append((m, x))
+                elif isinstance(x, ast.Call) and u(x.func) in ("setattr", "delattr") and len(x.args) >= 2 and attr in u(x.args[1]):
+                    writers.append((m, x))
+        run.check(not writers, "C19.KEEP", cls.qual, f"self.{attr} is bound in __init__ only",
+                  f"self.{attr} is re-bound in " + ", ".join(sorted({m.name for m, _x in writers})) + ": after that the term no "
+                  "longer reads its primary (or no longer has its fallback), so it cannot return to the primary when it recovers",
+                  node=(writers[0][1] if writers else cls.node), file=cls.module.rel)
+        for m, _x in writers:
+            run.analysed(m.qual)
 
 
 def check_buf(run: Run, prog: Program) -> None:
@@ -719,13 +762,31 @@ def build_controls(prog: Program) -> list[tuple[str, str, str, str, str]]:
                     and isinstance(s_.body[0], ast.Return) and u(s_.body[0].value) == "None" and not s_.orelse:
                 add("older-test only on first fetch", STEPS, stmt_patch(sy, s_, lambda t: ""), "C19.SYNC")
                 break
+    # SYNC/ERR: the catch-up read bounded by a timeout whose expiry counts as a stream error; KEEP: the error handler
+    # of the primary swaps the primary out for good
+    if sy is not None:
+        for w in (x for x in ast.walk(sy.node) if isinstance(x, ast.While)):
+            for c in (x for x in ast.walk(w) if isinstance(x, ast.Call) and method_call(x, None, "receive")):
+                txt = seg(sy.module, c)
+                add("catch-up read under a timeout", STEPS, stmt_patch(
+                    sy, c, lambda t, txt=txt: t.replace(f"await {txt}", f"await asyncio.wait_for({txt}, 1.0)", 1)), "C19.SYNC")
+                break
+            break
+    for t_ in (x for x in ast.walk(fw.node) if isinstance(x, ast.Try)):
+        if t_.handlers and any(isinstance(c, ast.Call) and method_call(c, "self._stream", "receive") for b in t_.body for c in ast.walk(b)):
+            head = t_.handlers[0].body[0]
+            fbp = fw.params[1] if len(fw.params) > 1 else "fallback_fetcher"
+            add("primary swapped out in the error handler", STEPS, src_patch(
+                fw.module, head.lineno, head.end_lineno or head.lineno,
+                lambda t, head=head, fbp=fbp: f"{' ' * head.col_offset}self._stream = {fbp}\n" + t), "C19.KEEP")
+            break
     stt = prog.func(f"{FFM}:FallbackFormulaMetricFetcher.start")
     for c in find_calls(stt.node, lambda c: isinstance(c.func, ast.Attribute) and c.func.attr == "new_receiver")[:1]:
         txt = seg(stt.module, c)
         add("tiny fallback receiver", FFM, stmt_patch(
             stt, c, lambda t, txt=txt, c=c: t.replace(txt, seg(stt.module, c.func) + "(max_size=1)", 1)), "C19.BUF")
     if len(out) < 4:
-        raise AnalysisError(f"C19: only {len(out)} of 7 seeded controls could be derived from the source "
+        raise AnalysisError(f"C19: only {len(out)} of 9 seeded controls could be derived from the source "
                             f"({[o[0] for o in out]})")
     return out
 
@@ -735,6 +796,7 @@ def run_rules(run: Run, prog: Program) -> None:
     check_err(run, prog)
     check_lazy(run, prog)
     check_sync(run, prog)
+    check_keep(run, prog)
     check_buf(run, prog)
 
 
@@ -743,6 +805,7 @@ def check(run: Run, prog: Program, tier: str) -> str:
              "fallback's next sample on primary error; primary received exactly once")
     run.rule("C19.TICK", "once the fallback runs, every tick reads it (synchronisation call or, on a primary error, its receive): "
              "the error path relies on the receiver having been drained in lock-step")
+    run.rule("C19.KEEP", "the primary stream and the fallback fetcher are bound once (in __init__): no path re-binds them")
     run.rule("C19.ERR", "every receive() is guarded by a catchable ReceiverError handler (two documented terminal sites)")
     run.rule("C19.LAZY", "fallback started only when not running and the primary is invalid (shared predicate) or failed")
     run.rule("C19.SYNC", "fallback samples are never lost; older-test on every call; catch-up loop only advances the fallback")
@@ -750,6 +813,7 @@ def check(run: Run, prog: Program, tier: str) -> str:
     run_rules(run, prog)
     run.floor("C19.SEL", 10)
     run.floor("C19.TICK", 4)
+    run.floor("C19.KEEP", 2)
     run.floor("C19.ERR", 5)
     run.floor("C19.LAZY", 7)
     run.floor("C19.SYNC", 8)
